@@ -281,12 +281,9 @@ impl ClusterHandler for AdminCommHandler {
             // instead so it lingers just long enough for the in-flight
             // exchange to complete, then can't accept new ones.
             // `Failsafe::expire` does the actual `remove_pase` call.
+            // (Likewise if it came in over a CASE session on the fabric being rolled back.)
             let sess = ctx.exchange().id().session(&mut state.sessions);
-            let expire_sess_id = matches!(
-                sess.get_session_mode(),
-                crate::transport::session::SessionMode::Pase { .. }
-            )
-            .then(|| sess.id());
+            let expire_sess_id = Some(sess.id());
 
             let removed_fabric = state.failsafe.expire(
                 &mut state.fabrics,
@@ -297,6 +294,16 @@ impl ClusterHandler for AdminCommHandler {
                 notify_mdns,
                 notify_change,
             )?;
+
+            // Nothing bound to a rolled-back fabric may outlive it
+            #[cfg(feature = "case-resumption")]
+            if let Some(fab_idx) = removed_fabric {
+                state.resumption.remove_for_fabric(fab_idx);
+                ctx.exchange()
+                    .matter()
+                    .transport()
+                    .notify_resumption_dirty();
+            }
 
             ctx.exchange().matter().transport().notify_session_removed();
 
